@@ -102,6 +102,66 @@ def converter_local_functions(path):
     return local
 
 
+_MUTATORS = {"append", "add", "update", "setdefault", "pop", "popitem", "clear", "extend", "insert", "remove", "discard", "sort",
+             "reverse", "__setitem__", "__delitem__", "appendleft", "move_to_end", "cache_clear"}
+
+
+def state_writing_functions(path):
+    """AST audit of the generated module (types.py is excluded from scheduling wholesale because its helper
+    functions only *read* module tables): line ranges of functions / methods that WRITE module-level state -
+    a `global` statement, a store or delete through a subscript / attribute of a module-level name (or of a
+    local alias of one), a mutator method called on one, or a functools cache decorator.  Their lines become
+    scheduling points."""
+    try:
+        tree = ast.parse(open(path, encoding="utf-8").read())
+    except (OSError, SyntaxError):
+        return []
+    module_vars = set()
+    for node in tree.body:
+        if isinstance(node, ast.Assign):
+            for t in node.targets:
+                for n in ast.walk(t):
+                    if isinstance(n, ast.Name):
+                        module_vars.add(n.id)
+        elif isinstance(node, (ast.AnnAssign, ast.AugAssign)) and isinstance(node.target, ast.Name):
+            module_vars.add(node.target.id)
+    out = []
+
+    def base_name(n):
+        while isinstance(n, (ast.Subscript, ast.Attribute, ast.Call)):
+            n = n.func if isinstance(n, ast.Call) else n.value
+        return n.id if isinstance(n, ast.Name) else None
+
+    def writes(fn):
+        shared = set(module_vars)
+        params = {a.arg for a in fn.args.args + fn.args.kwonlyargs}
+        shared -= params
+        for n in ast.walk(fn):
+            if isinstance(n, ast.Assign) and isinstance(n.value, (ast.Name, ast.Subscript, ast.Attribute, ast.Call)) and base_name(n.value) in shared:
+                for t in n.targets:
+                    if isinstance(t, ast.Name):
+                        shared.add(t.id)           # local alias of (a part of) module state
+        for d in fn.decorator_list:
+            txt = ast.dump(d)
+            if "lru_cache" in txt or "'cache'" in txt or "cached_property" in txt:
+                return "cache decorator"
+        for n in ast.walk(fn):
+            if isinstance(n, (ast.Global, ast.Nonlocal)):
+                return "global statement"
+            if isinstance(n, (ast.Subscript, ast.Attribute)) and isinstance(n.ctx, (ast.Store, ast.Del)) and base_name(n) in shared:
+                return "stores through %s" % base_name(n)
+            if isinstance(n, ast.Call) and isinstance(n.func, ast.Attribute) and n.func.attr in _MUTATORS and base_name(n.func.value) in shared:
+                return "calls %s on %s" % (n.func.attr, base_name(n.func.value))
+        return None
+
+    for node in ast.walk(tree):
+        if isinstance(node, (ast.FunctionDef, ast.AsyncFunctionDef)):
+            why = writes(node)
+            if why:
+                out.append((node.lineno, node.end_lineno, node.name, why))
+    return out
+
+
 # --------------------------------------------------------------------------------------------------
 class CoopLock:
     """Replacement for threading.Lock/RLock found in the package: acquire is a scheduling point."""
